@@ -22,6 +22,21 @@ CLAIMS = {
                 note=MAC_NOTE + " Not modelled: rustc's expansion of the macro_rules chain and #[cfg] on closure parameters (end-to-end in harness/rustc).", technique="Lean 4 proof (list induction) + differential correspondence incl. erased twins", ref="§6 C16"),
 }
 
+CLAIMS.update({
+    "C02": dict(text="Theorems: refinement of the N-column storage to an abstract map entity -> row along every labelled history (create inserts, destroy erases and returns the entity's own row, a write updates exactly the designated entity, clone maps), frame rule per operation, every read path reads valueOf; for any number of columns. Tie: harness/rt writes through 8 mutable paths and reads through all paths over archetypes of 1,2,3,5,16(32) columns with zero-sized / align 1,8,16 / heap-owning components; oracle on implementation traces.",
+                note=RT_NOTE, technique="Lean 4 proof (refinement to an abstract map) + differential correspondence with the real API", ref="§6 C02"),
+    "C04": dict(text="Theorems over token-valued storages: conservation (owned ++ handed-back ~ initial ++ moved-in as permutations), world drop returns exactly the owned cells, Nodup preserved (no double drop, nothing handed back while owned), clone clones each live cell once, failed create_within_capacity changes nothing. Tie: instrumented Clone/Drop registry in harness/rt (per-op drops inside gecs, end-of-sequence balance, double-drop detection), incl. zero-sized and heap-owning components.",
+                note=RT_NOTE + " Bit-copy semantics of swap_remove/realloc not running destructors: Miri (thorough tier) as supporting evidence.", technique="Lean 4 proof (permutation invariant over labelled histories) + Clone/Drop registry correspondence", ref="§6 C04"),
+    "C11": dict(text="Theorems over RefCell counter cells and guard trees with unwinding, for all access trees: no state with writer and readers, panics iff a static conflict exists (with the exact BorrowError/BorrowMutError kind), all cells unborrowed afterwards on both outcomes, clone panics iff a listed column has a writer, different column/archetype and shared-shared always granted. Tie: `nest` operation of harness/rt walks run-time trees over the real borrow_slice(_mut), Borrow::component(_mut), ecs_find_borrow!, ecs_iter_borrow!, clone (all pairs + random nestings) under catch_unwind with a post-sweep.",
+                note=RT_NOTE + " Trusted: std::cell::RefCell is the reader/writer counter.", technique="Lean 4 proof (mutual induction over guard trees with a ghost held-list abstraction) + differential correspondence", ref="§6 C11"),
+    "C13": dict(text="Theorems: the clone has identical len/capacity/version/handles/free list/events and every lookup (any words, Entity or direct) answers identically, values equal under any Clone-preserved observation, clone satisfies the invariant and can be refilled to capacity, owned values disjoint when Clone produces fresh ones. Independence is NOT exhibited by the functional model: it rests on the tie (clone-and-diverge phases with probes on both worlds, drops in both orders with the registry).",
+                note=RT_NOTE, technique="Lean 4 proof (field equality + invariant) for identity; correspondence only for independence", ref="§6 C13"),
+    "C14": dict(text="Theorems over Nat words for all 2^32 x 2^32 values and all 256 ids: pack/unpack (shift/or = arithmetic forms), raw round trip and from_raw rejecting exactly generation 0, try_from/from_any iff id match, Select* picks the unique archetype or InvalidEntityType, hash input injective and congruent, distinct (id, index, generation) give unequal handles, slot-index encoding. Tie: `conv`/`forge`/create lines of harness/rt over boundary words x ids.",
+                note=RT_NOTE, technique="Lean 4 proof (arithmetic, omega + Nat bit lemmas, no bv_decide) + differential correspondence", ref="§6 C14"),
+    "C17": dict(text="Theorems: along every labelled history the created/destroyed logs are the fold of the labels; after a clear exactly the handles created/destroyed since, in order; clear changes nothing else; feature off logs nothing; the generated world-level iterator (state machine) yields the concatenation of the per-archetype logs with an exact size_hint at every position. Tie: events/clear lines of harness/rt built with the events feature, incl. world-level iterators and size_hint after each next().",
+                note=RT_NOTE, technique="Lean 4 proof (fold over labelled histories; iterator state-machine invariant) + differential correspondence", ref="§6 C17"),
+})
+
 NOT_YET = {}
 
 ALL = ["C%02d" % i for i in range(1, 20)]
